@@ -711,6 +711,15 @@ the_callback(void * cookie)
 			    (unsigned long)(n - T0_NS / 1000), (unsigned long)(r->dl_lo - T0_NS / 1000));
 		for (i = 0; i < nreg; i++)
 			if (regs[i].live) {
+				/*
+				 * The loop chose a timer without having looked at the descriptors since the previous
+				 * callback, while a registered descriptor is ready in the (simulated) kernel: the ready
+				 * socket had to win.
+				 */
+				if (regs[i].kind == K_NET && cb_since_poll > 0 &&
+				    ((regs[i].dir ? w_wr[regs[i].fi] : w_rd[regs[i].fi]) || w_hup[regs[i].fi]))
+					sim_viol("C05.net-first", "net-first-nolook", "timer id=%d ran although fd=%d dir=%d was registered and ready, and the loop had not polled since the previous callback",
+					    r->id, fdnum[regs[i].fi], regs[i].dir);
 				if (regs[i].kind == K_NET && regs[i].reported_latest)
 					sim_viol("C05.net-first", "net-first", "timer id=%d ran while fd=%d dir=%d, reported by the latest poll, was still registered",
 					    r->id, fdnum[regs[i].fi], regs[i].dir);
@@ -788,11 +797,11 @@ poll_impl(struct pollfd * fds, nfds_t n, int T)
 	last_poll_plain_eintr = 0;
 	polls_in_call++;
 	cb_since_poll = 0;
-	if (R->cnt[N_POLL] > 3000000) {
+	if (R->cnt[N_POLL] > 1500000) {
 		char o[32];
 
 		snprintf(o, sizeof(o), "%s.spin", sim_prop);
-		sim_viol(o, "poll-cap", "the event loop called poll more than 3000000 times in one run (bounded workload: busy loop)");
+		sim_viol(o, "poll-cap", "the event loop called poll more than 1500000 times in one run (bounded workload: busy loop)");
 	}
 	if (n > 16)
 		R->cnt[N_POLLGROW]++;
